@@ -342,7 +342,7 @@ func CheckC15(s Script, tr Trace) error {
 	if tr.OverCommit != "" {
 		return fmt.Errorf("with a faulty divider: %s", tr.OverCommit)
 	}
-	if !s.Simple {
+	if !s.Simple && !tr.FaultEarly {
 		after := len(tr.Deliveries) - tr.FaultDelivs
 		if after > tr.FaultOutLen {
 			return fmt.Errorf("divider call #%d returned a wrong total; %d item(s) were delivered afterwards although only %d sat in the output channel at that moment", tr.FaultCall, after, tr.FaultOutLen)
@@ -455,7 +455,7 @@ func CheckC17(s Script, tr Trace) error {
 
 // CheckC19 : no goroutine of the discipline survives termination.
 func CheckC19(s Script, tr Trace) error {
-	if tr.NewErr != "" || tr.Deadlock != "" {
+	if tr.NewErr != "" {
 		return nil
 	}
 	if len(tr.Leaked) > 0 {
